@@ -55,6 +55,13 @@ def directed_plans(tier):
         out.append({**base, 'design': d, 'labels': [3, 11, 12, 30]})
     out.append({**base, 'use_same_signal': False, 'noise': 1, 'noise_cov': True})
     out.append({**base, 'kind': 'weighted', 'theta': [2.0, 0.5]})
+    # the one history (found by the thorough tier, VERIF_SEED=0) on which the exact-signal construction breaks down
+    # macroscopically for n_channel == n_cond: kept as a directed scenario so that the known finding is re-observed
+    import json
+    import os
+    f = os.path.join(os.path.dirname(os.path.abspath(__file__)), 'data', 'c18_equal_channels_plan.json')
+    if os.path.exists(f):
+        out.append(json.load(open(f)))
     return out
 
 
@@ -272,7 +279,7 @@ def execute(plan, ctx):
             got = _rdm_from_data(sig_terms[s], cidx, nc)
             err = float(np.max(np.abs(got - exp)))
             if err > tol * scale:
-                ctx.violation('sim_ref.clause1', 'make_dataset:exact-rdm',
+                ctx.violation('sim_ref.clause1', 'make_dataset:exact-rdm' + (':n_channel==n_cond' if n_ch == nc else ''),
                               f'simulation {s}: squared-Euclidean RDM of the simulated signal differs from signal*model RDM by {err} '
                               f'(signal={plan["signal"]}, design={plan["design"]}, n_cond={nc}, n_channel={n_ch}); '
                               f'got row0 {got[0].tolist()} expected {exp[0].tolist()}')
